@@ -58,6 +58,12 @@ def run(ctx):
     c17.writers_rule(ctx, "C16.W")          # an empty input still produces its (empty) output file
     ctor_total_rule(ctx)
     subtraction_audit(ctx)
+    domain_audit(ctx)
+    # no k-mers at all (empty file, records shorter than k): the counts table is empty and must load as empty
+    from . import c08
+    fcov = ctx.view(c08.COV)
+    if fcov is not None:
+        c08.inputs_rule(dep(ctx, "C16", "C08"), fcov)
     # empty input on the mmap path: the mapping has length 0, so no unconditional write may touch it
     from . import c05
     fb, fm = ctx.view(c05.BATCH), ctx.view(c05.MMAP)
@@ -272,3 +278,59 @@ def subtraction_audit(ctx):
                  % (k, fp), line_of(n))
     ctx.check("C16.A", "subtractions:audited", not extra, "%d distinct unsigned subtraction terms, all audited" % len(seen),
               "%d unaudited subtraction term(s)" % len(extra), None)
+
+
+
+# std functions that panic when an argument is degenerate (zero, empty, min > max, index == len): which argument matters
+PARTIAL_FNS = {
+    "clamp": "min <= max", "chunks": "size != 0", "chunks_exact": "size != 0", "chunks_mut": "size != 0",
+    "rchunks": "size != 0", "par_chunks": "size != 0", "par_chunks_exact": "size != 0", "windows": "size != 0",
+    "par_windows": "size != 0", "step_by": "step != 0", "split_at": "mid <= len", "split_at_mut": "mid <= len",
+    "split_off": "at <= len", "copy_from_slice": "equal lengths", "clone_from_slice": "equal lengths",
+    "swap_remove": "index < len", "rotate_left": "k <= len", "rotate_right": "k <= len", "swap": "indices < len",
+    "gen_range": "non-empty range", "div_euclid": "divisor != 0", "rem_euclid": "divisor != 0",
+    "ilog2": "argument != 0", "ilog10": "argument != 0", "ilog": "argument != 0", "array_chunks": "size != 0",
+}
+AUDITED_PARTIAL_CALLS = {}      # "fn(args)" -> reason; empty on the pinned tree (no such call exists)
+
+
+def domain_audit(ctx):
+    """D: a call to a std function that panics on a degenerate argument (`clamp(1, n)` with n = 0, `chunks(0)`,
+    `windows(0)`, `step_by(0)`, `split_at(len + 1)` ..) must have that argument fixed by literals; a runtime size
+    (record count, record length, thread count, k) in that position is reported: the degenerate inputs of this
+    property are exactly the ones that make it 0."""
+    n_seen = 0
+    bad = []
+    for fv in ctx.all_views(lambda f: not f["npath"].startswith(("<kmertools::", "pykmertools::", "<pybindings::"))):
+        if fv.fn.get("mac"):
+            continue
+        for n in fv.nodes:
+            if n.get("k") not in ("call", "mcall") or n.get("mac"):
+                continue
+            c = cname(n)
+            last = c.split("::")[-1]
+            if last not in PARTIAL_FNS or not (c.startswith(("std::", "core::", "alloc::", "rayon::", "rand::")) or "::" not in c):
+                continue
+            if last == "swap" and "mem::swap" in c:
+                continue
+            n_seen += 1
+            args = [fv.term(a) for a in n.get("args", [])]
+            lits = [a for a in args if a[0] == "lit" and isinstance(a[1], (int, float))]
+            if last == "clamp":
+                ok = len(lits) == 2 and lits[0][1] <= lits[1][1]
+            elif last in ("copy_from_slice", "clone_from_slice", "split_at", "split_at_mut", "split_off", "swap_remove",
+                          "rotate_left", "rotate_right", "swap", "gen_range"):
+                ok = False
+            else:
+                ok = len(args) >= 1 and args[-1][0] == "lit" and isinstance(args[-1][1], int) and args[-1][1] != 0
+            key = "%s(%s)" % (last, ", ".join(show(a) for a in args))
+            if not ok and key not in AUDITED_PARTIAL_CALLS:
+                bad.append((fv.path, key, PARTIAL_FNS[last], n))
+    for fp, key, need, n in bad:
+        ctx.fail("C16.D", "%s:partial_call:%s" % (fp, key),
+                 "`%s` in %s panics unless %s, and its arguments are runtime values: on degenerate input (no records, empty "
+                 "record, record shorter than k, zero counts) the call aborts the subcommand instead of producing the "
+                 "empty / all-zero output" % (key, fp, need), line_of(n))
+    ctx.check("C16.D", "partial_calls:audited", not bad,
+              "%d call(s) to degenerate-argument-partial std functions, all with literal in-domain arguments" % n_seen,
+              "%d call(s) whose in-domain condition depends on the input" % len(bad), None, nontrivial=False)
